@@ -8,6 +8,7 @@ package turn
 
 import (
 	"errors"
+	"runtime"
 	"fmt"
 	"net"
 	"sort"
@@ -263,4 +264,85 @@ func TestVerifH4(t *testing.T) {
 			w.finish()
 		})
 	}
+	// real time: something else completes the transaction while a retransmission's socket write is in progress
+	for _, mode := range []string{"response", "close", "response", "close"} {
+		h4WriteRace(vt, mode)
+	}
+}
+
+// h4WriteRace (C12 exactly-once, C18): a retransmission's WriteTo takes a while and then fails; while it is in
+// progress the response arrives / the client is closed.  The transaction must be completed exactly once:
+// no goroutine may be left blocked in WriteResult, and nothing may send on a closed result channel
+// (that panic kills the process; the orchestrator reports the last flushed operation).
+func h4WriteRace(vt *vhT, mode string) {
+	vt.OpSync("trace %s", mode)
+	n := newSimNet()
+	srv, _ := n.listenUDP(net.ParseIP("10.0.0.1").To4(), 3478, true)
+	cpc, _ := n.listenUDP(net.ParseIP("10.0.0.2").To4(), 4000, true)
+	var c *Client
+	var mu sync.Mutex
+	sends := 0
+	n.writeHook = func(from, to net.Addr, b []byte) error {
+		if from.String() != cpc.addr.String() || !stun.IsMessage(b) {
+			return nil
+		}
+		mu.Lock()
+		nth := sends
+		sends++
+		mu.Unlock()
+		if nth != 1 {
+			return nil
+		}
+		m := &stun.Message{Raw: append([]byte{}, b...)}
+		if m.Decode() != nil {
+			return nil
+		}
+		switch mode {
+		case "response":
+			resp, _ := stun.Build(stun.NewTransactionIDSetter(m.TransactionID), stun.BindingSuccess)
+			go func() { _, _ = c.HandleInbound(resp.Raw, srv.addr) }()
+		case "close":
+			go c.Close()
+		}
+		time.Sleep(80 * time.Millisecond)
+		return errors.New("simnet: injected write error")
+	}
+	lf := logging.NewDefaultLoggerFactory()
+	lf.DefaultLogLevel = logging.LogLevelDisabled
+	var err error
+	c, err = NewClient(&ClientConfig{STUNServerAddr: "10.0.0.1:3478", TURNServerAddr: "10.0.0.1:3478", Conn: cpc, RTO: 20 * time.Millisecond, LoggerFactory: lf,
+		Username: "alice", Password: "pw", Realm: "pion.ly"})
+	if err != nil {
+		panic(err)
+	}
+	msg, _ := stun.Build(stun.NewTransactionIDSetter(tidOf(7)), stun.BindingRequest)
+	done := make(chan string, 1)
+	go func() {
+		_, err := c.PerformTransaction(msg, srv.addr, false)
+		if err == nil {
+			done <- "response"
+		} else {
+			done <- "error"
+		}
+	}()
+	res := "hung"
+	select {
+	case res = <-done:
+	case <-time.After(3 * time.Second):
+		vt.Alarm("txn-completion-race", "mode=%s: PerformTransaction did not return", mode)
+	}
+	time.Sleep(250 * time.Millisecond)
+	buf := make([]byte, 1<<20)
+	stacks := string(buf[:runtime.Stack(buf, true)])
+	if strings.Contains(stacks, "Transaction).WriteResult") {
+		vt.Alarm("txn-completion-race", "mode=%s result=%s: a goroutine is blocked in Transaction.WriteResult - the transaction was completed twice", mode, res)
+	}
+	if sz := c.trMap.Size(); sz != 0 {
+		vt.Alarm("txn-completion-race", "mode=%s: %d entries left in the transaction table", mode, sz)
+	}
+	vt.Stat("h4.race." + mode + "." + res)
+	vt.Obs("ok")
+	c.Close()
+	_ = cpc.Close()
+	_ = srv.Close()
 }
